@@ -1849,6 +1849,21 @@ def rule_L5(ctx, L):
             raise Unsupported("root of the frame chain is %s" % show(root, 2))
     else:
         test, a, b = root[1], root[2], root[3]
+        if a and b and is_source(a[-1]) and is_source(b[-1]) and (len(a) > 1 or len(b) > 1):
+            # the arms carry steps of their own (a fallback that returns early, steps repeated per arm): what is done
+            # to the frame must not depend on the separator it was read with
+            def steps(arm):
+                def sub(t):
+                    if t == arm[-1]:
+                        return ("source",)
+                    return tuple(sub(x) for x in t) if isinstance(t, tuple) else t
+                return [sub(t) for t in arm[:-1]]
+            sa, sb = steps(a), steps(b)
+            if sa != sb:
+                only = [t for t in sa if t not in sb] + [t for t in sb if t not in sa]
+                ctx.check(False, "L5", "tab-separated read, comma-separated fallback iff one column", _where(L, "_create_raw_data_df"), "the frame is not prepared alike for the two separators: %s is applied after one read and not after the other" % show(only[0], 3), construct=F, stmt="separator fallback")
+                return
+            a, b = a[-1:], b[-1:]
         if len(a) != 1 or len(b) != 1 or not is_source(a[0]) or not is_source(b[0]):
             raise Unsupported("separator fallback: arms are not single reads")
         one = None
@@ -2072,6 +2087,8 @@ SELFTEST = [
     {"name": "L5-samples-descending", "kind": "break", "rule": "L5", "file": _P, "old": 'samples = sorted(df["sample_id"].unique())', "new": 'samples = sorted(df["sample_id"].unique(), reverse=True)'},
     {"name": "L5-mutations-descending", "kind": "break", "rule": "L5", "file": _P, "old": 'df.sort_values(by="mutation_id", ascending=True)', "new": 'df.sort_values(by="mutation_id", ascending=False)'},
     {"name": "L5-fallback-on-two-columns", "kind": "break", "rule": "L5", "file": _P, "old": "if len(df.columns) == 1:", "new": "if len(df.columns) == 2:"},
+    {"name": "L5-fallback-returns-before-the-id-conversion", "kind": "break", "rule": "L5", "file": _P, "old": "    if len(df.columns) == 1:\n        df = pd.read_csv(file_name)\n", "new": "    if len(df.columns) == 1:\n        return pd.read_csv(file_name)\n"},
+    {"name": "benign-L5-fallback-returns-after-its-own-conversion", "kind": "benign", "file": _P, "old": "    if len(df.columns) == 1:\n        df = pd.read_csv(file_name)\n", "new": "    if len(df.columns) == 1:\n        df = pd.read_csv(file_name)\n        df[\"sample_id\"] = df[\"sample_id\"].astype(str)\n        return df\n"},
     {"name": "L5-fallback-removed", "kind": "break", "rule": "L5", "file": _P, "old": "    if len(df.columns) == 1:\n        df = pd.read_csv(file_name)\n", "new": ""},
     {"name": "L5-cluster-value-from-other-key", "kind": "break", "rule": "L5", "file": _P, "old": "val = np.sum(np.array(raw_data[cluster_id]), axis=0)", "new": "val = np.sum(np.array(raw_data[idx]), axis=0)"},
     # ---- benign
